@@ -82,20 +82,157 @@ theorem export_confined (uri : Str) (label : Option Str) (s : Str)
       · exact sanitize_only_normal _ s h
       · exact sanitize_only_normal _ s h
 
+/-- `sanitize_archive_path` on a string without `/`: it is accepted only if it is one normal
+name, and then returned unchanged. -/
+theorem sanitize_noslash (id key : Str) (hns : 47 ∉ id) (h : sanitize id = .ok key) :
+    key = id ∧ NormalName id ∧ 92 ∉ id := by
+  have hsp : splitSlash id = [id] := splitSlash_of_noslash id hns
+  by_cases h1 : id = [46]
+  · subst h1
+    have : sanitize [46] = .error .bad := by rfl
+    rw [this] at h; cases h
+  by_cases h2 : id = [46, 46]
+  · subst h2
+    have : sanitize [46, 46] = .error .bad := by rfl
+    rw [this] at h; cases h
+  unfold sanitize at h
+  split at h
+  · cases h
+  · rename_i hne
+    split at h
+    · cases h
+    · rename_i h92
+      have hc : components id = [Comp.normal id] := by
+        unfold components componentsSegs
+        rw [hsp]
+        simp [rooted, single, hne, h1, h2]
+      rw [hc] at h
+      simp only [sanLoop, sanStep, if_true] at h
+      split at h
+      · cases h
+      · simp only [Except.ok.injEq] at h
+        exact ⟨h.symm, ⟨hne, h1, h2, hns⟩, h92⟩
+
+theorem getElem?_splitSlash_noslash (name id : Str) (i : Nat) (h : (splitSlash name)[i]? = some id) :
+    47 ∉ id :=
+  splitSlash_noslash name id (List.mem_of_getElem? h)
+
 /-- **archive_entry_confined.** The key under which `Builder::old_from_archive` stores a
-`resources/…` zip entry is a single normal name. -/
+`resources/…` zip entry is a single normal name (no `/`, no `\`, not `.`/`..`/empty). -/
 theorem archive_entry_confined (name key : Str) (h : archiveEntry name = some (.ok key)) :
-    ∃ names : Segs, names ≠ [] ∧ (∀ n ∈ names, NormalName n ∧ 92 ∉ n) ∧ key = joinSlash names ∧
-      components key = names.map Comp.normal := by
+    NormalName key ∧ 92 ∉ key := by
   unfold archiveEntry at h
   split at h
   · split at h
     · cases h
     · split at h
       · cases h
-      · simp only [Option.some.injEq] at h
-        exact (sanitize_only_normal _ key h).1
+      · rename_i id hid
+        simp only [Option.some.injEq] at h
+        obtain ⟨hk, hN, h92⟩ := sanitize_noslash id key (getElem?_splitSlash_noslash name id 1 hid) h
+        rw [hk]; exact ⟨hN, h92⟩
   · cases h
+
+/-- **archive_keys_confined.** Whatever zip entry name an archive carries (all three branches of
+`Builder::old_from_archive`: `resources/…`, `manifests/…`, `ingredients/<n>/…`), every identifier
+under which its data is stored — in the builder's or in an ingredient's resource store — is the
+fixed name `manifest_data.c2pa`, or empty (only in an ingredient's store, for `ingredients/<n>`
+without a name), or a single normal name: never a path with a separator, `..`, `.` or a
+backslash. -/
+theorem archive_keys_confined (ams : List (Option Str)) (name : Str) (effs : List (StoreId × Str))
+    (h : archiveEffects ams name = .ok effs) :
+    ∀ e ∈ effs, e.2 = manifestDataKey ∨ (e.1 ≠ .builder ∧ e.2 = []) ∨ (NormalName e.2 ∧ 92 ∉ e.2) := by
+  unfold archiveEffects at h
+  cases h1 : archResources name with
+  | error e => rw [h1] at h; cases h
+  | ok e1 =>
+    rw [h1] at h
+    cases h2 : archManifests ams name with
+    | error e => rw [h2] at h; cases h
+    | ok e2 =>
+      rw [h2] at h
+      cases h3 : archIngredients ams name with
+      | error e => rw [h3] at h; cases h
+      | ok e3 =>
+        rw [h3] at h
+        simp only [Except.ok.injEq] at h
+        subst h
+        intro e he
+        simp only [List.mem_append] at he
+        rcases he with (he | he) | he
+        · -- resources/
+          unfold archResources at h1
+          split at h1
+          · simp only [Except.ok.injEq] at h1; subst h1; simp at he
+          · cases h1
+          · rename_i key hk
+            simp only [Except.ok.injEq] at h1; subst h1
+            simp only [List.mem_singleton] at he; subst he
+            exact Or.inr (Or.inr (archive_entry_confined name key hk))
+        · -- manifests/
+          unfold archManifests at h2
+          split at h2
+          · split at h2
+            · cases h2
+            · split at h2
+              · cases h2
+              · split at h2
+                · cases h2
+                · simp only [Except.ok.injEq] at h2; subst h2
+                  unfold manifestTargets at he
+                  simp only [List.mem_filterMap] at he
+                  obtain ⟨⟨am, i⟩, _, hx⟩ := he
+                  simp only at hx
+                  split at hx
+                  · split at hx
+                    · simp only [Option.some.injEq] at hx; subst hx; exact Or.inl rfl
+                    · cases hx
+                  · cases hx
+          · simp only [Except.ok.injEq] at h2; subst h2; simp at he
+        · -- ingredients/
+          unfold archIngredients at h3
+          split at h3
+          · split at h3
+            · cases h3
+            · split at h3
+              · cases h3
+              · simp only at h3
+                split at h3
+                · cases h3
+                · rename_i key hkey
+                  split at h3
+                  · cases h3
+                  · simp only [Except.ok.injEq] at h3; subst h3
+                    simp only [List.mem_singleton] at he; subst he
+                    split at hkey
+                    · rename_i hne
+                      cases hg : (splitSlash name)[2]? with
+                      | none => rw [hg] at hne; simp at hne
+                      | some id =>
+                        rw [hg] at hkey
+                        simp only [Option.getD_some] at hkey
+                        obtain ⟨hk, hN, h92⟩ :=
+                          sanitize_noslash id key (getElem?_splitSlash_noslash name id 2 hg) hkey
+                        rw [hk]; exact Or.inr (Or.inr ⟨hN, h92⟩)
+                    · simp only [Except.ok.injEq] at hkey; subst hkey
+                      exact Or.inr (Or.inl ⟨by simp, rfl⟩)
+          · simp only [Except.ok.injEq] at h3; subst h3; simp at he
+
+-- "resources/a.jpg" is stored in the builder under "a.jpg"; "ingredients/1/t" in ingredient 1 under "t";
+-- "ingredients/0" under ""; "resources/../x" and "ingredients/0/.." reject the archive
+example : archiveEffects [none, none] [114, 101, 115, 111, 117, 114, 99, 101, 115, 47, 97] =
+    .ok [(.builder, [97])] := by rfl
+example : archiveEffects [none, none] [105, 110, 103, 114, 101, 100, 105, 101, 110, 116, 115, 47, 49, 47, 116] =
+    .ok [(.ingredient 1, [116])] := by rfl
+example : archiveEffects [none, none] [105, 110, 103, 114, 101, 100, 105, 101, 110, 116, 115, 47, 48] =
+    .ok [(.ingredient 0, [])] := by rfl
+example : archiveEffects [none] [114, 101, 115, 111, 117, 114, 99, 101, 115, 47, 46, 46, 47, 120] =
+    .error .bad := by rfl
+example : archiveEffects [none] [105, 110, 103, 114, 101, 100, 105, 101, 110, 116, 115, 47, 48, 47, 46, 46] =
+    .error .bad := by rfl
+-- "manifests/a_b" goes to the ingredient whose active manifest is "a:b"
+example : archiveEffects [some [97, 58, 98], none] [109, 97, 110, 105, 102, 101, 115, 116, 115, 47, 97, 95, 98] =
+    .ok [(.ingredient 0, manifestDataKey)] := by rfl
 
 /-! ### `normalize_lexically`, `resolve_within_root`: lexical containment -/
 
@@ -235,11 +372,18 @@ theorem readFile_canon (fs : FS) (env : Env) (p : Segs) (v : Str) (h : readFile 
       · exact walk_found_look fs true _ _ _ _ _ _ hw (by simp)
 
 /-- **read_confined (`get`).** Whatever bytes `ResourceStore::get` hands out, for whatever
-identifier and whatever links are in the tree, are the content of a regular file whose real
-location is below the real root. -/
+identifier and whatever links are in the tree, are what the in-memory map holds under exactly
+that identifier, or the content of a regular file whose real location is below the real root. -/
 theorem read_confined_get (fs : FS) (c : Cfg) (id v : Str) (h : get fs c id = .found v) :
+    c.mem.lookup id = some v ∨
     ∃ R q, canon fs c.env c.rootSegs = some R ∧ R <+: q ∧ fs.look q = some (.file v) := by
   unfold get at h
+  cases hm : c.mem.lookup id with
+  | some w => rw [hm] at h; simp only [GetRes.found.injEq] at h; subst h; exact Or.inl rfl
+  | none =>
+  right
+  rw [hm] at h
+  simp only at h
   cases hr : resolveWithinRoot fs c.env c.baseSegs c.rootSegs id with
   | error e => rw [hr] at h; cases h
   | ok path =>
@@ -258,8 +402,15 @@ theorem read_confined_get (fs : FS) (c : Cfg) (id v : Str) (h : get fs c id = .f
 /-- **read_confined (`write_stream`).** -/
 theorem read_confined_write_stream (fs : FS) (c : Cfg) (id v : Str)
     (h : writeStream fs c id = .ok v) :
+    c.mem.lookup id = some v ∨
     ∃ R q, canon fs c.env c.rootSegs = some R ∧ R <+: q ∧ fs.look q = some (.file v) := by
   unfold writeStream at h
+  cases hm : c.mem.lookup id with
+  | some w => rw [hm] at h; simp only [WsRes.ok.injEq] at h; subst h; exact Or.inl rfl
+  | none =>
+  right
+  rw [hm] at h
+  simp only at h
   cases hr : resolveWithinRoot fs c.env c.baseSegs c.rootSegs id with
   | error e => rw [hr] at h; cases h
   | ok path =>
@@ -275,12 +426,17 @@ theorem read_confined_write_stream (fs : FS) (c : Cfg) (id v : Str)
       obtain ⟨R, hR, hpre⟩ := resolve_ok_canon fs c.env _ _ id path hr q hq
       exact ⟨R, q, hR, hpre, hl⟩
 
-/-- **read_confined (`exists`).** `exists` only ever says `true` (from the disk) about a node
-whose real location is below the real root. -/
+/-- **read_confined (`exists`).** `exists` only ever says `true` about an identifier the
+in-memory map holds, or (from the disk) about a node whose real location is below the real root. -/
 theorem read_confined_exists (fs : FS) (c : Cfg) (id : Str) (h : existsId fs c id = true) :
+    (c.mem.lookup id).isSome = true ∨
     ∃ R q, canon fs c.env c.rootSegs = some R ∧
       canon fs c.env (pathJoin c.baseSegs (splitSlash id)) = some q ∧ R <+: q := by
   unfold existsId at h
+  by_cases hm : (c.mem.lookup id).isSome = true
+  · exact Or.inl hm
+  right
+  simp only [hm, Bool.false_eq_true, if_false] at h
   cases hr : resolveWithinRoot fs c.env c.baseSegs c.rootSegs id with
   | error e => rw [hr] at h; cases h
   | ok path =>
@@ -331,6 +487,142 @@ theorem resolveForWrite_ok (fs : FS) (env : Env) (base root : Segs) (id : Str) (
       subst h
       exact ⟨(lexical_contained fs env base root id path hr).2.2.2.1, hc⟩
 
+/-- a relative path of normal names -/
+theorem rooted_normals (names : List Str) (hne : names ≠ []) (hN : ∀ n ∈ names, NormalName n) :
+    rooted names = false := by
+  cases names with
+  | nil => exact absurd rfl hne
+  | cons n ns =>
+    have := (hN n (by simp)).1
+    cases n with
+    | nil => exact absurd rfl this
+    | cons a b => cases ns <;> simp [rooted]
+
+/-- a path that resolves is `s0 :: Q'`, walked from `/` iff `s0` is empty -/
+theorem walkP_found_cons (fs : FS) (env : Env) (A : Segs) (Bp : PPath) (k : Kind) (g : Nat)
+    (hA : walkP fs env true A = .found Bp k g) :
+    emptyPath A = false ∧ ∃ s0 Q', A = s0 :: Q' ∧
+      walk fs true env.fuel (if s0 = [] then [] else env.cwd) (s0 :: Q') = .found Bp k g := by
+  have hbe : emptyPath A = false := by
+    cases he : emptyPath A with
+    | false => rfl
+    | true => unfold walkP at hA; simp [he] at hA
+  refine ⟨hbe, ?_⟩
+  unfold walkP at hA
+  simp only [hbe, Bool.false_eq_true, if_false] at hA
+  cases hb : A with
+  | nil => rw [hb] at hbe; simp [emptyPath] at hbe
+  | cons s0 Q' =>
+    rw [hb] at hA
+    have hst : env.start (s0 :: Q') = if s0 = [] then [] else env.cwd := by
+      unfold Env.start
+      cases s0 with
+      | cons a b => simp [rooted]
+      | nil =>
+        cases Q' with
+        | nil => rw [hb] at hbe; simp [emptyPath] at hbe
+        | cons x y => simp [rooted]
+    rw [hst] at hA
+    exact ⟨s0, Q', rfl, hA⟩
+
+/-- `base.join(names)` for a base that resolves to a directory: the segments of the base
+(without a trailing separator) followed by the names -/
+theorem base_key (fs : FS) (env : Env) (base : Segs) (names : List Str) (Bp : PPath) (g : Nat)
+    (hbase : walkP fs env true base = .found Bp .dir g) (hnr : rooted names = false) :
+    ∃ s0 Q' gQ, pathJoin base names = s0 :: Q' ++ names ∧
+      walk fs true env.fuel (if s0 = [] then [] else env.cwd) (s0 :: Q') = .found Bp .dir gQ := by
+  obtain ⟨hbe, s0', Q0, hA0, hw0⟩ := walkP_found_cons fs env base Bp .dir g hbase
+  unfold walkP at hbase
+  simp only [hbe, Bool.false_eq_true, if_false] at hbase
+  have hj : pathJoin base names =
+      if base.getLast? = some [] then base.dropLast ++ names else base ++ names := by
+    unfold pathJoin
+    simp only [hnr, hbe, Bool.false_eq_true, if_false]
+  by_cases hlast : base.getLast? = some []
+  · simp only [hlast, if_true] at hj
+    rcases list_snoc_cases base with hnil | ⟨init, l, hil⟩
+    · rw [hnil] at hlast; simp at hlast
+    · have hl : l = [] := by rw [hil] at hlast; simpa using hlast
+      subst hl
+      cases init with
+      | nil => rw [hil] at hbe; simp [emptyPath] at hbe
+      | cons s0 Q' =>
+        rw [hil] at hbase hj
+        simp only [List.dropLast_concat] at hj
+        have hst : env.start (s0 :: Q' ++ [[]]) = if s0 = [] then [] else env.cwd := by
+          have := rooted_cons_append s0 Q' [[]] (by simp)
+          unfold Env.start
+          simp only [List.cons_append] at this ⊢
+          by_cases h0 : s0 = []
+          · subst h0; simp at this; simp [this]
+          · simp [h0] at this; simp [this, h0]
+        rw [hst] at hbase
+        obtain ⟨p', g', h1, h2⟩ := walk_append_found fs true _ _ (s0 :: Q') [[]] (by simp) _ _ _ hbase
+        have h3 := walk_skips fs true [[]] g' p' (by simp [isSkip])
+        rw [h2] at h3
+        split at h3
+        · simp only [Res.found.injEq, true_and] at h3
+          rw [h3.1]
+          exact ⟨s0, Q', g', hil ▸ hj, h1⟩
+        · cases h3
+  · simp only [hlast, if_false] at hj
+    subst hA0
+    exact ⟨s0', Q0, g, hj, hw0⟩
+
+/-- **Core of the write side.** `resolve_within_root_for_write(base, root, rel)`,
+`create_dir_all(parent)`, `write` — for a `rel` made of normal names, a root that resolves to
+`R`, and a base of the form `A/m₁/…/mₖ` (`k ≥ 0`, plain names) whose part `A` resolves to a
+directory really inside `R` (the `mᵢ` need not exist): whatever the links in the tree, and
+whether the operation succeeds or fails half-way, every location at which the tree differs
+afterwards is below `R`. -/
+theorem checkedWrite_confined (fs : FS) (env : Env) (A M root : Segs) (rel data : Str)
+    (names : List Str) (R Bp : PPath) (g : Nat)
+    (hwf : fs.WF) (hroot : canon fs env root = some R)
+    (hA : walkP fs env true A = .found Bp .dir g) (hin : R <+: Bp)
+    (hM : ∀ m ∈ M, NormalName m)
+    (hne : names ≠ []) (hN : ∀ n ∈ names, NormalName n) (hsplit : splitSlash rel = names) :
+    ∀ p, (checkedWrite fs env (A ++ M) root rel data).2.look p ≠ fs.look p → R <+: p := by
+  intro p
+  unfold checkedWrite
+  cases hr : resolveForWrite fs env (A ++ M) root rel with
+  | error e => cases e <;> (intro h; exact absurd rfl h)
+  | ok path =>
+    simp only
+    obtain ⟨hj, hchk⟩ := resolveForWrite_ok fs env _ _ rel path hr
+    rw [hsplit] at hj
+    have hnr := rooted_normals names hne hN
+    have key : ∃ s0 Q' gQ, path = s0 :: Q' ++ (M ++ names) ∧
+        walk fs true env.fuel (if s0 = [] then [] else env.cwd) (s0 :: Q') = .found Bp .dir gQ := by
+      rcases list_snoc_cases M with hM0 | ⟨Mi, ml, hMl⟩
+      · subst hM0
+        simp only [List.append_nil] at hj
+        obtain ⟨s0, Q', gQ, h1, h2⟩ := base_key fs env A names Bp g hA hnr
+        exact ⟨s0, Q', gQ, by rw [hj, h1]; simp, h2⟩
+      · obtain ⟨hbe, s0, Q', hAe, hw⟩ := walkP_found_cons fs env A Bp .dir g hA
+        have hml : NormalName ml := hM ml (by rw [hMl]; simp)
+        refine ⟨s0, Q', g, ?_, hw⟩
+        rw [hj]
+        unfold pathJoin
+        have he : emptyPath (A ++ M) = false := by
+          rw [hAe, hMl]; simp [emptyPath]
+        have hl : (A ++ M).getLast? ≠ some [] := by
+          rw [hMl, ← List.append_assoc, List.getLast?_concat]
+          intro h; exact hml.1 (Option.some.inj h)
+        simp only [hnr, he, hl, Bool.false_eq_true, if_false]
+        rw [hAe]; simp
+    obtain ⟨s0, Q', gQ, hpath, hQ⟩ := key
+    let B : BaseCtx :=
+      { fs := fs, env := env, s0 := s0, Q' := Q', Bp := Bp, gQ := gQ, R := R, root := root
+        hwf := hwf, hQ := hQ, hroot := hroot, hin := hin }
+    have hMN : ∀ n ∈ M ++ names, NormalName n := by
+      intro n hn
+      rcases List.mem_append.1 hn with h | h
+      · exact hM n h
+      · exact hN n h
+    have := B.add_core (M ++ names) (by simp [hne]) hMN
+      (by simpa [B, BaseCtx.Q, hpath] using hchk) data p
+    simpa [B, BaseCtx.Q, hpath] using this
+
 /-- **write_confined.** `ResourceStore::add`, in a well-formed tree in which the configured root
 resolves to `R` and the configured base directory resolves to a directory really inside `R`:
 whatever the identifier, the data and the symbolic links in the tree (into or out of the root,
@@ -348,83 +640,57 @@ theorem write_confined (fs : FS) (c : Cfg) (id data : Str) (R Bp : PPath) (g : N
   | error e => intro h; exact absurd rfl h
   | ok sid =>
     simp only
-    cases hr : resolveForWrite fs c.env c.baseSegs c.rootSegs sid with
-    | error e => cases e <;> (intro h; exact absurd rfl h)
-    | ok path =>
-      simp only
-      obtain ⟨names, hne, hN, _, hsplit, _⟩ := sanitize_shape id sid hs
-      obtain ⟨hj, hchk⟩ := resolveForWrite_ok fs c.env _ _ sid path hr
-      rw [hsplit] at hj
-      have hN' : ∀ n ∈ names, NormalName n := fun n hn => (hN n hn).1
-      -- `names` is a relative path
-      have hnr : rooted names = false := by
-        cases names with
-        | nil => exact absurd rfl hne
-        | cons n ns =>
-          have := (hN' n (by simp)).1
-          cases n with
-          | nil => exact absurd rfl this
-          | cons a b => cases ns <;> simp [rooted]
-      -- the base is a proper path
-      have hbe : emptyPath c.baseSegs = false := by
-        cases he : emptyPath c.baseSegs with
-        | false => rfl
-        | true => unfold walkP at hbase; simp [he] at hbase
-      unfold walkP at hbase
-      simp only [hbe, Bool.false_eq_true, if_false] at hbase
-      unfold pathJoin at hj
-      simp only [hnr, hbe, Bool.false_eq_true, if_false] at hj
-      -- the segments `Qs` of the base to which the names are appended
-      have key : ∃ s0 Q' gQ, path = s0 :: Q' ++ names ∧
-          walk fs true c.env.fuel (if s0 = [] then [] else c.env.cwd) (s0 :: Q') = .found Bp .dir gQ := by
-        by_cases hlast : c.baseSegs.getLast? = some []
-        · simp only [hlast, if_true] at hj
-          rcases list_snoc_cases c.baseSegs with hnil | ⟨init, l, hil⟩
-          · rw [hnil] at hlast; simp at hlast
-          · have hl : l = [] := by rw [hil] at hlast; simpa using hlast
-            subst hl
-            cases init with
-            | nil => rw [hil] at hbe; simp [emptyPath] at hbe
-            | cons s0 Q' =>
-              rw [hil] at hbase hj
-              simp only [List.dropLast_concat] at hj
-              have hst : c.env.start (s0 :: Q' ++ [[]]) = if s0 = [] then [] else c.env.cwd := by
-                have := rooted_cons_append s0 Q' [[]] (by simp)
-                unfold Env.start
-                simp only [List.cons_append] at this ⊢
-                by_cases h0 : s0 = []
-                · subst h0; simp at this; simp [this]
-                · simp [h0] at this; simp [this, h0]
-              rw [hst] at hbase
-              obtain ⟨p', g', h1, h2⟩ := walk_append_found fs true _ _ (s0 :: Q') [[]] (by simp) _ _ _ hbase
-              have h3 := walk_skips fs true [[]] g' p' (by simp [isSkip])
-              rw [h2] at h3
-              split at h3
-              · simp only [Res.found.injEq, true_and] at h3
-                rw [h3.1]
-                exact ⟨s0, Q', g', hj, h1⟩
-              · cases h3
-        · simp only [hlast, if_false] at hj
-          cases hb : c.baseSegs with
-          | nil => rw [hb] at hbe; simp [emptyPath] at hbe
-          | cons s0 Q' =>
-            rw [hb] at hbase hj
-            have hst : c.env.start (s0 :: Q') = if s0 = [] then [] else c.env.cwd := by
-              unfold Env.start
-              cases s0 with
-              | cons a b => simp [rooted]
-              | nil =>
-                cases Q' with
-                | nil => rw [hb] at hbe; simp [emptyPath] at hbe
-                | cons x y => simp [rooted]
-            rw [hst] at hbase
-            exact ⟨s0, Q', g, hj, hbase⟩
-      obtain ⟨s0, Q', gQ, hpath, hQ⟩ := key
-      let B : BaseCtx :=
-        { fs := fs, env := c.env, s0 := s0, Q' := Q', Bp := Bp, gQ := gQ, R := R, root := c.rootSegs
-          hwf := hwf, hQ := hQ, hroot := hroot, hin := hin }
-      have := B.add_core names hne hN' (by simpa [B, BaseCtx.Q, hpath] using hchk) data p
-      simpa [B, BaseCtx.Q, hpath] using this
+    obtain ⟨names, hne, hN, _, hsplit, _⟩ := sanitize_shape id sid hs
+    have := checkedWrite_confined fs c.env c.baseSegs [] c.rootSegs sid data names R Bp g hwf hroot
+      hbase hin (by simp) hne (fun n hn => (hN n hn).1) hsplit p
+    simpa using this
+
+/-- **write_confined_missing_base.** The same when the configured base directory does not exist
+yet: the base path is `A/m₁/…/mₖ` where `A` resolves to a directory really inside `R` and the
+`mᵢ` are plain names (which `create_dir_all` creates on the way, or which exist, or which are
+symbolic links — then the ancestor loop of `resolve_within_root_for_write` decides). -/
+theorem write_confined_missing_base (fs : FS) (c : Cfg) (id data : Str) (A M : Segs)
+    (R Bp : PPath) (g : Nat)
+    (hwf : fs.WF)
+    (hroot : canon fs c.env c.rootSegs = some R)
+    (hsplitB : c.baseSegs = A ++ M) (hM : ∀ m ∈ M, NormalName m)
+    (hA : walkP fs c.env true A = .found Bp .dir g)
+    (hin : R <+: Bp) :
+    ∀ p, (add fs c id data).2.look p ≠ fs.look p → R <+: p := by
+  intro p
+  unfold add
+  cases hs : sanitize id with
+  | error e => intro h; exact absurd rfl h
+  | ok sid =>
+    simp only
+    obtain ⟨names, hne, hN, _, hsplit, _⟩ := sanitize_shape id sid hs
+    rw [hsplitB]
+    exact checkedWrite_confined fs c.env A M c.rootSegs sid data names R Bp g hwf hroot
+      hA hin hM hne (fun n hn => (hN n hn).1) hsplit p
+
+/-- **export_write_confined.** One item of `Reader::to_folder(dest)` — `write_bytes(uri_to_path(uri,
+label)?, data)?` — with the destination folder resolving to the directory `R` (it does after the
+initial `create_dir_all`): whatever the URI, the manifest label, the data and the symbolic links
+already present in or below the folder, and whether it succeeds or fails half-way, every location
+at which the tree differs afterwards is below `R`. -/
+theorem export_write_confined (fs : FS) (env : Env) (dest : Segs) (uri : Str) (label : Option Str)
+    (data : Str) (R : PPath) (g : Nat)
+    (hwf : fs.WF) (hdest : walkP fs env true dest = .found R .dir g) :
+    ∀ p, (exportItem fs env dest uri label data).2.look p ≠ fs.look p → R <+: p := by
+  intro p
+  unfold exportItem
+  cases hu : uriToPath uri label with
+  | error e => intro h; exact absurd rfl h
+  | ok rel =>
+    simp only
+    obtain ⟨⟨names, hne, hN, hs, _⟩, _⟩ := export_confined uri label rel hu
+    have hsplit : splitSlash rel = names := by
+      rw [hs]; exact splitSlash_joinSlash names hne (fun n hn => (hN n hn).1.2.2.2)
+    have hroot : canon fs env dest = some R := by unfold canon; rw [hdest]
+    unfold exportRel
+    have := checkedWrite_confined fs env dest [] dest rel data names R R g hwf hroot hdest
+      (List.prefix_refl R) (by simp) hne (fun n hn => (hN n hn).1) hsplit p
+    simpa using this
 
 /-! ### witnesses -/
 
@@ -477,8 +743,31 @@ nothing. -/
 example : (add fsW cfgW [108, 47, 120] [1]).1 = .bad ∧
     (add fsW cfgW [108, 47, 120] [1]).2.look [[111], [120]] = none := by decide
 
-/-- The check-free `join` + `create_dir_all` + `write` (`Reader::to_folder`'s `write_bytes`,
-and `ResourceStore::add` before it called `resolve_within_root_for_write` — defect F7) is
+/-- `write_confined_missing_base` is not vacuous: base path `/r/n/m` with neither `n` nor `m`
+there (`A = /r`, `M = [n, m]`): `add("x")` creates `/r/n`, `/r/n/m` and the file … -/
+def cfgM : Cfg := { env := envW, base := [47, 114, 47, 110, 47, 109], root := some [47, 114] }
+example : cfgM.baseSegs = [[], [114]] ++ [[110], [109]] ∧
+    walkP fsW cfgM.env true [[], [114]] = .found [[114]] .dir 14 ∧
+    canon fsW cfgM.env cfgM.rootSegs = some [[114]] ∧
+    (add fsW cfgM [120] [1]).1 = .ok ∧
+    (add fsW cfgM [120] [1]).2.look [[114], [110], [109], [120]] = some (.file [1]) ∧
+    (add fsW cfgM [120] [1]).2.look [[114], [110]] = some .dir := by decide
+
+/-- … and with the base path `/r/l/m` (`l` the link to `/o`, `m` missing) `add("x")`, which
+would create `/o/m/x`, is refused. -/
+example : (add fsW { cfgM with base := [47, 114, 47, 108, 47, 109] } [120] [1]).1 = .bad := by decide
+
+/-- `export_write_confined` is not vacuous: `to_folder("/r")` writes the item `x` to `/r/x`, and
+refuses the item `l/x` (URI `self#jumbf=/c2pa/l/x`), which would land in `/o`. -/
+example : walkP fsW envW true [[], [114]] = .found [[114]] .dir 14 ∧
+    (exportItem fsW envW [[], [114]] [120] none [1]).1 = .ok ∧
+    (exportItem fsW envW [[], [114]] [120] none [1]).2.look [[114], [120]] = some (.file [1]) ∧
+    (exportItem fsW envW [[], [114]] (selfJumbf ++ c2paPrefix ++ [108, 47, 120]) none [1]).1 = .bad ∧
+    (exportItem fsW envW [[], [114]] (selfJumbf ++ c2paPrefix ++ [108, 47, 120]) none [1]).2.look
+      [[111], [120]] = none := by decide
+
+/-- The check-free `join` + `create_dir_all` + `write` (what `Reader::to_folder`'s `write_bytes`
+and `ResourceStore::add` were before they called `resolve_within_root_for_write` — defect F7) is
 confined for every tree and every sanitized relative path. -/
 def UncheckedWriteConfined : Prop :=
   ∀ (fs : FS) (env : Env) (dest : Segs) (rel data : Str) (R : PPath),
@@ -486,7 +775,8 @@ def UncheckedWriteConfined : Prop :=
     ∀ p, (writeUnder fs env dest rel data).2.look p ≠ fs.look p → R <+: p
 
 /-- It is not: through the directory link `/r/l -> /o`, writing `l/x` below `/r` creates `/o/x`.
-(Replayed on the implementation by the harness: `f7_replay`.) -/
+(Replayed on the implementation by the harness: `f7_replay` for `add`, `tofolder_replay` for
+`Reader::to_folder`; both now refuse — `write_confined`, `export_write_confined`.) -/
 theorem unchecked_write_escapes : ¬ UncheckedWriteConfined := by
   intro h
   have := h fsW envW (splitSlash [47, 114]) [108, 47, 120] [1] [[114]] fsW_wf (by decide)
@@ -495,12 +785,15 @@ theorem unchecked_write_escapes : ¬ UncheckedWriteConfined := by
   decide
 
 /-- Two trees that both resolve the root to `R` and agree on everything below `R` get the same
-answers from the read side. -/
-def ReadsRevealNothing : Prop :=
+answer from the read-side operation `obs`: nothing about what exists outside the root shows. -/
+def RevealsNothing {α : Type} (obs : FS → Cfg → Str → α) : Prop :=
   ∀ (fs fs' : FS) (c : Cfg) (id : Str) (R : PPath),
     fs.WF → fs'.WF → canon fs c.env c.rootSegs = some R → canon fs' c.env c.rootSegs = some R →
     (∀ p, R <+: p → fs.look p = fs'.look p) →
-    pathForId fs c id = pathForId fs' c id
+    obs fs c id = obs fs' c id
+
+/-- the full "reveal the existence of" clause, for `path_for_id` -/
+def ReadsRevealNothing : Prop := RevealsNothing pathForId
 
 /-- `/r/k -> /o/s`; `/o/s` exists -/
 def fsK1 : FS :=
@@ -510,24 +803,89 @@ def fsK1 : FS :=
 def fsK2 : FS :=
   ⟨[([], .dir), ([[114]], .dir), ([[111]], .dir), ([[114], [107]], .link [47, 111, 47, 115])]⟩
 
+theorem fsK_agree : ∀ p, [[114]] <+: p → fsK1.look p = fsK2.look p := by
+  intro p hp
+  obtain ⟨t, rfl⟩ := hp
+  cases t with
+  | nil => decide
+  | cons a t =>
+    cases t with
+    | nil => simp [fsK1, fsK2, FS.look, List.lookup]
+    | cons b t => simp [fsK1, fsK2, FS.look, List.lookup]
+
 /-- The code falsifies it: `path_for_id("k")`, with `/r/k -> /o/s` planted in the base
 directory `/r`, is `None` when `/o/s` exists and `Some("/r/k")` when it does not — the
 existence of a file outside the root is revealed. (Replayed on the implementation by the
-harness: the outside-existence probe, class `outside-existence-leak`.) What does hold is
-`read_confined_*`: every positive answer is about a location below the real root. -/
+harness: `leak_replay` and the outside-existence probe, class `outside-existence-leak`.) What
+does hold is `read_confined_*`: every positive answer is about a location below the real root. -/
 theorem reads_reveal_outside_existence : ¬ ReadsRevealNothing := by
   intro h
   have := h fsK1 fsK2 cfgW [107] [[114]] (wf_of_nodes _ (by decide)) (wf_of_nodes _ (by decide))
-    (by decide) (by decide) (by
-      intro p hp
-      obtain ⟨t, rfl⟩ := hp
-      cases t with
-      | nil => decide
-      | cons a t =>
-        cases t with
-        | nil => simp [fsK1, fsK2, FS.look, List.lookup]
-        | cons b t => simp [fsK1, fsK2, FS.look, List.lookup])
+    (by decide) (by decide) fsK_agree
   revert this
   decide
+
+/-- The same two trees tell `write_stream("k")` apart: `ResourceNotFound` when `/o/s` exists
+(`resolve_within_root` rejects the escaping link), `IoError` when it does not (the dangling link
+passes and `File::open` fails). -/
+theorem write_stream_reveals_outside_existence : ¬ RevealsNothing writeStream := by
+  intro h
+  have := h fsK1 fsK2 cfgW [107] [[114]] (wf_of_nodes _ (by decide)) (wf_of_nodes _ (by decide))
+    (by decide) (by decide) fsK_agree
+  revert this
+  decide
+
+example : writeStream fsK1 cfgW [107] = .notFound ∧ writeStream fsK2 cfgW [107] = .io := by decide
+
+/-- … and `get("k")`: `ResourceNotFound("k")` when `/o/s` exists, `ResourceNotFound("/r/k")`
+when it does not (the payload of the error differs). -/
+theorem get_reveals_outside_existence : ¬ RevealsNothing get := by
+  intro h
+  have := h fsK1 fsK2 cfgW [107] [[114]] (wf_of_nodes _ (by decide)) (wf_of_nodes _ (by decide))
+    (by decide) (by decide) fsK_agree
+  revert this
+  decide
+
+example : get fsK1 cfgW [107] = .notFound [107] ∧
+    get fsK2 cfgW [107] = .notFound [47, 114, 47, 107] := by decide
+
+/-- `/r/k -> /o/l`, `/o/l -> /r/f`, `/r/f` a file: a chain that leaves the root and comes back -/
+def fsE1 : FS :=
+  ⟨[([], .dir), ([[114]], .dir), ([[111]], .dir), ([[114], [107]], .link [47, 111, 47, 108]),
+    ([[111], [108]], .link [47, 114, 47, 102]), ([[114], [102]], .file [7])]⟩
+/-- the same without the link `/o/l` outside the root -/
+def fsE2 : FS :=
+  ⟨[([], .dir), ([[114]], .dir), ([[111]], .dir), ([[114], [107]], .link [47, 111, 47, 108]),
+    ([[114], [102]], .file [7])]⟩
+
+theorem fsE_agree : ∀ p, [[114]] <+: p → fsE1.look p = fsE2.look p := by
+  intro p hp
+  obtain ⟨t, rfl⟩ := hp
+  cases t with
+  | nil => decide
+  | cons a t =>
+    cases t with
+    | nil =>
+      simp only [fsE1, fsE2, FS.look, List.lookup, List.cons_append, List.nil_append]
+      by_cases h1 : a = [107]
+      · subst h1; decide
+      · by_cases h2 : a = [102]
+        · subst h2; decide
+        · simp [h1, h2]
+    | cons b t => simp [fsE1, fsE2, FS.look, List.lookup]
+
+/-- `exists` is not silent either: `exists("k")` is `true` when the link `/o/l` outside the root
+is there (the chain ends at `/r/f`, inside) and `false` when it is not. (The simple case — a
+link straight to a file outside — does not show through `exists`: it answers `false` both
+times.) -/
+theorem exists_reveals_outside_existence : ¬ RevealsNothing existsId := by
+  intro h
+  have := h fsE1 fsE2 cfgW [107] [[114]] (wf_of_nodes _ (by decide)) (wf_of_nodes _ (by decide))
+    (by decide) (by decide) fsE_agree
+  revert this
+  decide
+
+example : existsId fsE1 cfgW [107] = true ∧ existsId fsE2 cfgW [107] = false ∧
+    existsId fsK1 cfgW [107] = false ∧ existsId fsK2 cfgW [107] = false := by decide
 
 end C2pa.C29
